@@ -637,7 +637,7 @@ func (e *Engine) bugCase(p *sim.Plan, st *sim.Step, res *sim.RunResult, keep boo
 	preRefs, preOps := localState(cw.victim.Raw)
 	outs, pullErr := cw.victimPull("hub1")
 	postRefs, postOps := localState(cw.victim.Raw)
-	panics := verifrt.TakePanics()
+	panics := verifrt.TakePanicsQuiesced()
 	for _, pr := range panics {
 		add("panic", "panic in %s: %s", pr.Site, pr.Value)
 	}
@@ -902,7 +902,7 @@ func (e *Engine) localCase(p *sim.Plan, st *sim.Step, res *sim.RunResult, keep b
 		}
 		return err
 	})
-	for _, pr := range verifrt.TakePanics() {
+	for _, pr := range verifrt.TakePanicsQuiesced() {
 		add("panic in %s: %s", pr.Site, pr.Value)
 	}
 	return vs, "local"
